@@ -143,6 +143,66 @@ let show_progs l = String.concat " " (List.map show_prog l)
 
 let default_patterns = List.map bytes_of_string ["pre.1"; "pre.2"; "pre.3"; "pre.4"; "pre.5"; "pre.6"; "pre.7"; "pre.8"]
 
+let handle_gen c (ctx : string) =
+    let recs = next_list c next_record in
+    let tcok = next_bool c in
+    let fed = next_list c next_bytes in
+    let proxy = next_list c (fun c -> let m = next_bytes c in let vs = next_list c next_bytes in (m, vs)) in
+    let paddings = next_list c (fun c -> let p = next_bytes c in let pd = next_padding c in (p, pd)) in
+    let status = next c in
+    let impl = (if status = "ok" then begin
+        let gov = next_list c next_bytes in
+        let progs = next_list c (fun c ->
+            let nm = next_bytes c in
+            let vs = next_list c next_bytes in
+            let rate_ok = ref true in
+            let ccs c = next_list c (fun c ->
+                let n = next_bytes c in let d = next_z c in let r1 = next_bool c in
+                if not r1 then rate_ok := false; (n, d)) in
+            let counters = ccs c in
+            let stacks = ccs c in
+            if not !rate_ok then diff "rate" ~model:"1.0" ~impl:(string_of_bytes nm);
+            { o_name = nm; o_versions = vs; o_counters = counters; o_stacks = stacks }) in
+        Some (gov, progs)
+      end else None) in
+    let tbl = next_version_table c in
+    oracle_strict := (status = "ok");
+    let (is_valid, vcmp, canonical, prerelease) = oracles tbl in
+    let go_versions = (match impl with Some (gov, _) -> gov | None -> fed) in
+    (match impl with
+     | Some (gov, _) ->
+       if List.sort compare gov <> List.sort compare fed then
+         diff "go-versions" ~model:(show_list fed) ~impl:(show_list gov)
+     | None -> ());
+    let m = if tcok then generate is_valid vcmp canonical prerelease go_versions proxy paddings default_patterns recs else GErr in
+    (match m, status, impl with
+     | GOk mps, "ok", Some (_, ips) ->
+       if mps <> ips then diff "generate" ~model:(show_progs mps) ~impl:(show_progs ips)
+     | GErr, "err", _ -> ()
+     | GPanic, "panic", _ -> ()
+     | _ -> diff "generate-status" ~model:(match m with GOk _ -> "ok" | GErr -> "err" | GPanic -> "panic") ~impl:status);
+    (* property oracles on the implementation's configuration *)
+    (match impl with
+     | Some (_, ips) ->
+       let names = List.map (fun o -> o.o_name) ips in
+       if List.length (List.sort_uniq compare names) <> List.length names then
+         prop "generate-lists" (ctx ^ "a program is listed twice: " ^ show_progs ips);
+       if not (lists_ok recs ips) then
+         prop "generate-lists" (ctx ^ Printf.sprintf "records=[%s] config=%s"
+                                  (String.concat "; " (List.map show_record recs)) (show_progs ips));
+       if not (versions_ok is_valid vcmp go_versions proxy recs ips) then
+         prop "generate-versions" (ctx ^ Printf.sprintf "records=[%s] known-go=%s proxy=%s config=%s"
+                                     (String.concat "; " (List.map show_record recs)) (show_list go_versions)
+                                     (String.concat " " (List.map (fun (m, vs) -> string_of_bytes m ^ "=" ^ show_list vs) proxy)) (show_progs ips));
+       List.iter (fun o ->
+           if not (is_toolchain o.o_name) then begin
+             if not (adjacent_ok vcmp o.o_versions) then prop "pad-sorted" (ctx ^ show_prog o);
+             if not (nodup_b o.o_versions) then
+               (* the proxy list itself may hold duplicates only if the harness fed them; it does not *)
+               prop "pad-nodup" (ctx ^ show_prog o)
+           end) ips
+     | None -> ())
+
 let handle kind c =
   match kind with
   | "keys" ->
@@ -193,64 +253,15 @@ let handle kind c =
     let impl = next_parse_result c in
     let m = parse (pf_of ftbl) text in
     compare_parse m impl text
-  | "gen" ->
-    let recs = next_list c next_record in
-    let tcok = next_bool c in
-    let fed = next_list c next_bytes in
-    let proxy = next_list c (fun c -> let m = next_bytes c in let vs = next_list c next_bytes in (m, vs)) in
-    let paddings = next_list c (fun c -> let p = next_bytes c in let pd = next_padding c in (p, pd)) in
-    let status = next c in
-    let impl = (if status = "ok" then begin
-        let gov = next_list c next_bytes in
-        let progs = next_list c (fun c ->
-            let nm = next_bytes c in
-            let vs = next_list c next_bytes in
-            let rate_ok = ref true in
-            let ccs c = next_list c (fun c ->
-                let n = next_bytes c in let d = next_z c in let r1 = next_bool c in
-                if not r1 then rate_ok := false; (n, d)) in
-            let counters = ccs c in
-            let stacks = ccs c in
-            if not !rate_ok then diff "rate" ~model:"1.0" ~impl:(string_of_bytes nm);
-            { o_name = nm; o_versions = vs; o_counters = counters; o_stacks = stacks }) in
-        Some (gov, progs)
-      end else None) in
-    let tbl = next_version_table c in
-    oracle_strict := (status = "ok");
-    let (is_valid, vcmp, canonical, prerelease) = oracles tbl in
-    let go_versions = (match impl with Some (gov, _) -> gov | None -> fed) in
-    (match impl with
-     | Some (gov, _) ->
-       if List.sort compare gov <> List.sort compare fed then
-         diff "go-versions" ~model:(show_list fed) ~impl:(show_list gov)
-     | None -> ());
-    let m = if tcok then generate is_valid vcmp canonical prerelease go_versions proxy paddings default_patterns recs else GErr in
-    (match m, status, impl with
-     | GOk mps, "ok", Some (_, ips) ->
-       if mps <> ips then diff "generate" ~model:(show_progs mps) ~impl:(show_progs ips)
-     | GErr, "err", _ -> ()
-     | GPanic, "panic", _ -> ()
-     | _ -> diff "generate-status" ~model:(match m with GOk _ -> "ok" | GErr -> "err" | GPanic -> "panic") ~impl:status);
-    (* property oracles on the implementation's configuration *)
-    (match impl with
-     | Some (_, ips) ->
-       let names = List.map (fun o -> o.o_name) ips in
-       if List.length (List.sort_uniq compare names) <> List.length names then
-         prop "generate-lists" ("a program is listed twice: " ^ show_progs ips);
-       if not (lists_ok recs ips) then
-         prop "generate-lists" (Printf.sprintf "records=[%s] config=%s"
-                                  (String.concat "; " (List.map show_record recs)) (show_progs ips));
-       if not (versions_ok is_valid vcmp go_versions proxy recs ips) then
-         prop "generate-versions" (Printf.sprintf "records=[%s] known-go=%s config=%s"
-                                     (String.concat "; " (List.map show_record recs)) (show_list go_versions) (show_progs ips));
-       List.iter (fun o ->
-           if not (is_toolchain o.o_name) then begin
-             if not (adjacent_ok vcmp o.o_versions) then prop "pad-sorted" (show_prog o);
-             if not (nodup_b o.o_versions) then
-               (* the proxy list itself may hold duplicates only if the harness fed them; it does not *)
-               prop "pad-nodup" (show_prog o)
-           end) ips
-     | None -> ())
+  | "gen" -> handle_gen c ""
+  | "sgen" ->
+    (* one of several generate() calls made in ONE process through the real
+       listProxyVersions path (a fake `go` on PATH answers from the proxy table
+       of the case): every call must equal the model on that table, whatever
+       was generated before *)
+    let sid = next_int c in
+    let idx = next_int c in
+    handle_gen c (Printf.sprintf "session=%d call=%d (same process as the preceding sgen cases of the session; no test hook) " sid idx)
   | "pad" ->
     let versions = next_list c next_bytes in
     let patterns = next_list c next_bytes in
